@@ -9,7 +9,9 @@ def run(R):
     import dreye
     nsys = 40 if R.tier == "quick" else 500
     R.rule = ("systems with 2-4 receptors (dichromats included), finite ub, lower bounds zero or positive (sources that cannot be switched off: 1/16-3/8 of ub, "
-              "uniform fraction or per source; the chromatic gamut is then spanned by the captures of all lb/ub corner intensities), K none/scalar/vector, baseline 0/scalar/vector; "
+              "uniform fraction or per source; the chromatic gamut is then spanned by the captures of all lb/ub corner intensities), K none/scalar/vector or "
+              "(a quarter of the systems) a full non-symmetric adaptation MATRIX with off-diagonal entries (the receptors' single-source maxima then come from "
+              "mixtures of the receptor signals), baseline 0/scalar/vector; "
               "non-negative target sets mixing chromaticities inside and outside the chromatic gamut, rows below the (non-zero) baseline "
               "capture added to a set and whole dim sets whose negative light-induced parts exceed the largest positive one (mixed-sign "
               "light-induced parts under relative=True), all-zero rows (with targets "
@@ -32,6 +34,11 @@ def run(R):
         nf = int(rng.integers(2, 5)); ns = int(rng.integers(nf, nf + 4))
         A = gen_A(rng, nf, ns, lo=0.0, hi=1.0, bits=3)
         kk, K = gen_K(rng, nf, kinds=("none", "scalar", "vector"))
+        # matrix adaptation (documented option: a two-dimensional K mixes the receptor signals; entrywise non-negative, so captures stay
+        # non-negative). Own random stream: the other draws of the system stay what they were.
+        krng = R.rng(13, si)
+        if krng.integers(4) == 0:
+            kk, K = gen_K(krng, nf, kinds=("matrix",))
         # target sets with rows BELOW the baseline (dark) capture need a registered non-zero baseline
         mrng = R.rng(9, si)
         below = str(mrng.choice(["none", "none", "none", "dim_set", "added_rows"]))
